@@ -808,6 +808,19 @@ func audioSplitRule(c *Ctx, fnName string) int {
 		case "copy":
 			total.seen++
 			ld, ls := d.Len(call.Call.Args[0]), d.Len(call.Call.Args[1])
+			// inside the loop the source may be the whole rest of the input (copy stops at the end of the destination and
+			// the cursor then advances by the fragment's length, which the next contract fixes at mtu): the destination
+			// must be filled; everywhere else source and destination have the same length
+			window := true
+			if sl, ok := call.Call.Args[1].(*ssa.Slice); !ok || sl.High == nil {
+				window = false
+			}
+			if !window && inAnyLoop(call.Block()) {
+				if ld == nil || ls == nil || !d.Entails(lin.LE(ld, ls)) {
+					fail(total, "at "+p.Position(call.Pos())+" the destination may be longer than what is left of the input: "+d.Describe(lin.LE(ld, ls)))
+				}
+				return
+			}
 			if ld == nil || ls == nil || !d.Entails(lin.EQ(ld, ls)...) {
 				fail(total, "at "+p.Position(call.Pos())+" the destination and the source window may differ in length: "+d.Describe(lin.LE(ld, ls)))
 			}
@@ -881,6 +894,9 @@ func audioSplitRule(c *Ctx, fnName string) int {
 		if dst == ssa.Value(loopMake) {
 			if sl, ok := src.(*ssa.Slice); ok && sl.Low == nil && sl.High != nil && isMtu(sl.High) && sl.X == advance.X {
 				okCopyLoop = true
+			}
+			if src == advance.X {
+				okCopyLoop = true // the whole cursor: copy stops after len(dst) = mtu octets
 			}
 		}
 		if finalMake != nil && dst == ssa.Value(finalMake) {
